@@ -33,7 +33,7 @@ Theorem apply_in_out_consistent : forall s sg, g_in (apply s sg) = g_out (apply 
 Proof. exact Proofs.Summ.apply_in_out. Qed.
 
 (** The full statement about the pinned table.  It does NOT hold of the pinned tree: 16 entries do not conform
-    (corpus/c09_known_nonconforming.txt: 2 of them lose a real flow - strings.Join, (*net/http.Request).WithContext - and are
+    (corpus/c09_known_nonconforming.txt: 2 of them lose a real flow - strings.Join and the WithContext method of net/http.Request - and are
     findings in known_findings.txt; 14 list positions that name nothing and lose no flow).  The statement is kept visible here
     and proved with the committed, individually justified exception list [gen_std_known].  A new non-conforming entry makes
     the proof of [std_table_conforms_except] fail. *)
